@@ -3,7 +3,7 @@
 use super::c04::{SubsScenario, mask_harness_only, mask_sub_points};
 use crate::report::Reporter;
 use crate::sched::{self, Scenario, Status, Verdict};
-use crate::smem::{HStep, PeerAct, SrvState};
+use crate::smem::{Conn, HStep, PeerAct, SrvCfg, SrvState};
 use serde_json::{Value, json};
 use std::collections::HashMap;
 use std::time::Duration;
@@ -429,16 +429,22 @@ pub fn scenarios(thorough: bool) -> Vec<BookScenario> {
 pub fn check(rep: &Reporter) {
 	let thorough = rep.tier.thorough();
 	rep.set_rule(
-		"WebSocket connections (1–2) with max_subscriptions_per_connection ∈ {0,1,2}; peer scripts over {subscribe ×(cap+1…), unsubscribe own live / already unsubscribed / other connection's / never issued / wrong JSON type, close frame, abrupt drop, subscribe again after k endings} × handler scripts {accept and hold, accept and return, reject, drop pending, accept+watch closed(), accept+clone+drop one clone}; all peer actions and handler steps (and, per scenario, the cfg points inside accept/send) are scheduling points; whole tree or ≤K deviations. Monitor with the interval rule: every unsubscribe answer must equal the reference 'active' value at some position between request and answer; refusals -32006 must be justified by a full connection at some position of the call; slot count never exceeds the cap; is_closed() of a held sink equals ¬active; a subscribe call answered with an error (incl. -32008 when max_response_body_size is below the accept() answer) has no live sink.",
+		"WebSocket connections (1–2) with max_subscriptions_per_connection ∈ {0,1,2}; peer scripts over {subscribe ×(cap+1…), unsubscribe own live / already unsubscribed / other connection's / never issued / wrong JSON type, close frame, abrupt drop, subscribe again after k endings} × handler scripts {accept and hold, accept and return, reject, drop pending, accept+watch closed(), accept+clone+drop one clone}; all peer actions and handler steps (and, per scenario, the cfg points inside accept/send) are scheduling points; whole tree or ≤K deviations. Monitor with the interval rule: every unsubscribe answer must equal the reference 'active' value at some position between request and answer; refusals -32006 must be justified by a full connection at some position of the call; slot count never exceeds the cap; is_closed() of a held sink equals ¬active; a subscribe call answered with an error (incl. -32008 when max_response_body_size is below the accept() answer) has no live sink. Plus: an id provider that reuses an id after its holder was unsubscribed (the new subscription stays active whatever the old handler does with its sink), the low-level ws::connect assembly, string subscription ids.",
 	);
 	rep.assume("active ⇔ accepted ∧ not unsubscribed ∧ connection open (on_session_closed not yet resolved) ∧ the handler holds at least one sink; slots = pending + subscriptions whose handlers still hold a sink");
 	for s in scenarios(thorough) {
 		sched::explore_auto(&s, rep, if thorough { 400_000 } else { 10_000 }, if thorough { 3 } else { 2 }, if thorough { 10 } else { 50 }, Duration::from_secs(if thorough { 300 } else { 6 }));
 	}
+	for s in reused_id_scenarios() {
+		sched::explore_auto(&s, rep, 100_000, 3, 20, Duration::from_secs(60));
+	}
 }
 
 pub fn dyn_scenarios() -> Vec<Box<dyn sched::DynScenario>> {
 	let mut v: Vec<Box<dyn sched::DynScenario>> = Vec::new();
+	for s in reused_id_scenarios() {
+		v.push(Box::new(s));
+	}
 	for s in scenarios(true) {
 		v.push(Box::new(s));
 	}
@@ -446,4 +452,91 @@ pub fn dyn_scenarios() -> Vec<Box<dyn sched::DynScenario>> {
 		v.push(Box::new(s));
 	}
 	v
+}
+
+
+// ---------------------------------------------------------------------------------------------
+// An id provider that hands out the same id again once the previous holder was unsubscribed: the new subscription is a
+// different one and must not be affected by what the old handler still does with its (closed) sink.
+
+pub struct ReusedIdScenario {
+	pub old_handler: Vec<HStep>,
+}
+
+impl Scenario for ReusedIdScenario {
+	type State = SrvState;
+	fn name(&self) -> String {
+		format!("srv_mem/bookkeeping:reused-subscription-id:{:?}", self.old_handler)
+	}
+	fn config(&self) -> Value {
+		json!({"id_provider": "constant id \"X\"", "peer": "subscribe, unsubscribe, subscribe (same id), unsubscribe", "old_handler_script": format!("{:?}", self.old_handler), "new_handler_script": "accept, is_closed ×3, hold"})
+	}
+	fn mask(&self) -> fn(&str) -> bool {
+		mask_harness_only
+	}
+	fn max_steps(&self) -> usize {
+		300
+	}
+	fn setup(&self) -> SrvState {
+		use HStep::*;
+		use PeerAct::*;
+		crate::smem::setup(&SrvCfg {
+			conns: vec![Conn::Ws(vec![Subscribe(0), Unsub(0), Subscribe(1), Unsub(1)])],
+			scripts: vec![self.old_handler.clone(), vec![Accept, IsClosed, IsClosed, IsClosed]],
+			max_subs: 4,
+			const_ids: true,
+			..Default::default()
+		})
+	}
+	fn judge(&self, _st: SrvState, trace: &[String], panics: &[String], status: Status) -> Verdict {
+		let mut v = Vec::new();
+		if status != Status::Quiescent {
+			v.push((format!("machinery:{status:?}"), format!("{status:?}")));
+		}
+		for p in panics {
+			v.push(("panic".into(), p.clone()));
+		}
+		let new_tag = "h:0:\"X\"#1";
+		let acc = trace.iter().position(|l| *l == format!("{new_tag}:accept:ok"));
+		let conn_end = trace.iter().position(|l| l == "c0:session-closed");
+		let unsub_tx: Vec<usize> = trace.iter().enumerate().filter(|(_, l)| l.starts_with("c0:tx:") && l.contains("\"unsub\"")).map(|(i, _)| i).collect();
+		if let Some(acc) = acc {
+			// the new subscription is active from its accept until an unsubscribe request sent after that (or the connection's end)
+			for (i, l) in trace.iter().enumerate().skip(acc) {
+				if l.starts_with(&format!("{new_tag}:is_closed:")) && l.ends_with("true") {
+					let justified = unsub_tx.iter().any(|u| *u > acc && *u < i) || conn_end.map_or(false, |e| e < i);
+					if !justified {
+						v.push((
+							"is_closed-true-while-active:reused-id".into(),
+							format!("the second subscription (same id as an earlier, unsubscribed one) reports closed at position {i} although it was not unsubscribed, its connection is open and its handler holds the sink"),
+						));
+					}
+				}
+			}
+			// the unsubscribe sent after the new subscription was accepted names an active subscription
+			if let Some(u) = unsub_tx.iter().find(|u| **u > acc) {
+				let id = serde_json::from_str::<Value>(trace[*u].trim_start_matches("c0:tx:")).map(|m| m["id"].clone()).unwrap_or(Value::Null);
+				let answer = trace.iter().skip(*u).filter_map(|l| l.strip_prefix("c0:rx:")).filter_map(|t| serde_json::from_str::<Value>(t).ok()).find(|m| m["id"] == id);
+				if let Some(a) = answer {
+					if a["result"] != true && conn_end.is_none() {
+						v.push((
+							"unsubscribe:false-for-active:reused-id".into(),
+							format!("unsubscribe of the second subscription (id reused after the first one ended) answered {} although it was active", a),
+						));
+					}
+				}
+			}
+		}
+		let outcome: Vec<&String> = trace.iter().filter(|l| l.contains(":rx:") || l.contains("is_closed")).collect();
+		Verdict { violations: v, outcome: format!("{outcome:?}") }
+	}
+}
+
+pub fn reused_id_scenarios() -> Vec<ReusedIdScenario> {
+	use HStep::*;
+	vec![
+		ReusedIdScenario { old_handler: vec![Accept, Send, DropSink(0)] },
+		ReusedIdScenario { old_handler: vec![Accept, IsClosed, ReturnNone] },
+		ReusedIdScenario { old_handler: vec![Accept, CloneSink, DropSink(0), DropSink(1)] },
+	]
 }
